@@ -150,6 +150,14 @@ func rtcGen(c *Ctx) {
 			ops := []rtcOp{{"w", []int{0x0000, 0x0a}}}
 			for j := 0; j < 60; j++ {
 				switch r := rng.Intn(16); {
+				case r == 15 && j%3 == 0:
+					// a halted span that is not a whole number of seconds, then the next second boundary probed to the cycle:
+					// the sub-second count must neither move nor be lost while the clock is halted
+					a := rng.Intn(40)
+					n := 1 + rng.Intn(3000)
+					ops = append(ops, rtcOp{"sub", []int{second - 1 - a}}, rtcOp{"w", []int{0x0000, 0x0a}},
+						rtcOp{"w", []int{0x4000, 0x0c}}, rtcOp{"w", []int{0xa000, 0x40}}, rtcOp{"tick", []int{n}},
+						rtcOp{"w", []int{0xa000, 0x00}}, rtcOp{"tick", []int{a}}, rtcOp{"get", nil}, rtcOp{"tick", []int{1}}, rtcOp{"get", nil})
 				case r < 3:
 					// elapsed time: a little, or just under / over a second boundary (the hook only moves the sub-second count)
 					switch rng.Intn(3) {
@@ -198,7 +206,7 @@ func rtcGen(c *Ctx) {
 		rng := c.Rand(1003)
 		for i := 0; i < count; i++ {
 			ops := []rtcOp{{"w", []int{0x0000, 0x0a}}, {"tick", []int{second - 1}}, {"get", nil}, {"tick", []int{1}}, {"get", nil},
-				{"tick", []int{second/2 + rng.Intn(1000)}}, {"w", []int{0x4000, 0x0c}}, {"w", []int{0xa000, 0x40}}, {"tick", []int{second}}, {"get", nil},
+				{"tick", []int{second/2 + rng.Intn(1000)}}, {"w", []int{0x4000, 0x0c}}, {"w", []int{0xa000, 0x40}}, {"tick", []int{second + 1000 + rng.Intn(second/2)}}, {"get", nil},
 				{"w", []int{0xa000, 0x00}}, {"tick", []int{second / 2}}, {"get", nil}, {"tick", []int{second / 2}}, {"get", nil}}
 			emit("real", ops)
 		}
